@@ -160,25 +160,79 @@ RANDOM_VECTOR_ROOTS = ('calculate_random_scalars', 'seeded_random_scalars')
 
 
 def _role_indexes(ctx, cfg, fn):
-    """{user variable: constant position}, {user variable: (start, end)} of the vector of random scalars, for every named local
-    of fn that is one element / one sub-slice of that vector.  The vector is followed from the call that draws it through
-    parameters, struct fields, slice patterns and helpers (vecpos)."""
+    """{label: constant position}, {label: (start, end)} of the vector of random scalars, for every value fn reads that is one element /
+    one sub-slice of that vector.  The vector is followed from the call that draws it through parameters, struct fields, slice patterns and
+    helpers (vecpos).  The label is the user variable that holds the value, or - when the value is read straight out of a struct of named
+    roles (`rnd.r2`) - the name of that field."""
     import vecpos
     body = ctx.prog(cfg).bodies[fn]
-    names = {loc.get('name') for loc in body.locals if loc.get('name')}
-    res, visited = vecpos.named_positions(ctx, cfg, fn, names, RANDOM_VECTOR_ROOTS)
-    out, rng = {}, {}
-    for nm, ps in res.items():
-        if len(ps) != 1:
-            continue
+    tr = vecpos.Tracer(ctx, cfg, RANDOM_VECTOR_ROOTS)
+    out, rng, places = {}, {}, {}
+
+    def note(label, ps, pl=None):
+        if label is None or len(ps) != 1:
+            return
         pos = next(iter(ps))
         if pos is None:
-            continue
+            return
         if pos[0] == 'idx':
-            out[nm] = pos[1]
+            out.setdefault(label, pos[1])
+            places.setdefault(label, pl)
         elif pos[0] == 'rng' and not (pos[1] == (None, 0) and pos[2] is None):
-            rng[nm] = (pos[1], pos[2])
+            rng.setdefault(label, (pos[1], pos[2]))
+            places.setdefault(label, pl)
+
+    # named locals
+    for l, loc in enumerate(body.locals):
+        nm = loc.get('name')
+        if nm and nm not in out and nm not in rng and 'Scalar' in loc.get('ty', ''):
+            note(nm, tr.trace(fn, l, []), {'l': l})
+    # fields of a struct of roles read in place
+    seen = set()
+    for bi, blk in enumerate(body.blocks):
+        if blk['cleanup']:
+            continue
+        ops = []
+        for st in blk['stmts']:
+            if st['k'] == 'assign':
+                rv = st['rv']
+                ops += [o for o in [rv.get('op'), rv.get('a'), rv.get('b')] + list(rv.get('ops') or []) if isinstance(o, dict)]
+                if rv.get('pl') is not None:
+                    ops.append({'k': 'copy', 'pl': rv['pl']})
+        t = blk['term']
+        if t['k'] == 'call':
+            ops += list(t['args'])
+        for o in ops:
+            if o.get('k') not in ('copy', 'move'):
+                continue
+            fs = [q for q in o['pl'].get('p', []) if q['k'] == 'field' and not str(q.get('adt', '')).startswith(('std::option', 'std::result', 'std::ops::ControlFlow'))]
+            if not fs or 'Scalar' not in str(fs[-1].get('ty', '')):
+                continue
+            label = fs[-1]['n']
+            key = (o['pl']['l'], tuple(q['n'] for q in fs))
+            if key in seen or label.isdigit():
+                continue
+            seen.add(key)
+            if label in out or label in rng:
+                continue
+            note(label, tr.trace_op(fn, {'k': 'copy', 'pl': o['pl']}, []), o['pl'])
+    _role_indexes.visited = set(tr.visited_fns)
+    _role_indexes.places = places
     return out, rng
+
+
+def _role_label(b, fd, pl, idx):
+    """the role a read place stands for: the named local it resolves to, or the role-struct field it reads"""
+    r, p = fd.resolve_place(pl)
+    nm = b.local_name(r)
+    if nm in idx and not p:
+        return nm
+    if p and str(p[-1]) in idx:
+        return str(p[-1])
+    fs = [q for q in pl.get('p', []) if q['k'] == 'field']
+    if fs and fs[-1]['n'] in idx:
+        return fs[-1]['n']
+    return None
 
 
 def rule_role_projection(ctx, cfg='prod-all', rule='RF-G2'):
@@ -242,10 +296,9 @@ def rule_response_masks(ctx, cfg='prod-all', rule='RF-G4'):
                 if d and d[0] == 'call' and (d[2].get('callee') or '') in ('std::ops::Add::add', 'std::ops::Sub::sub'):
                     for a in d[2]['args']:
                         if a['k'] in ('copy', 'move'):
-                            r, p = fd.resolve_place(a['pl'])
-                            nm = b.local_name(r)
-                            if nm in idx:
-                                mask = nm
+                            lab = _role_label(b, fd, a['pl'], idx)
+                            if lab is not None:
+                                mask = lab
                             else:
                                 # a role bound by destructuring (`let Roles { e_tilde, .. } = ..`): follow plain copies to the named local
                                 l2 = a['pl']['l']
@@ -272,9 +325,9 @@ def rule_response_masks(ctx, cfg='prod-all', rule='RF-G4'):
     yield Ob(rule, '%s#masks-distinct' % fn, len(set(ms)) == len(ms) == 3, 'the three fixed responses use three different masks', b.span, fact=used, expected='3 distinct')
     # no proof field is a plain copy of a secret input
     secrets = {'e', 'undisclosed_messages', 'random_scalars'}
-    for l, loc in enumerate(b.locals):
-        if loc.get('name') in idx or loc.get('name') in rng:
-            for a in fd.read_op({'k': 'copy', 'pl': {'l': l}}):
+    for lab, pl in getattr(_role_indexes, 'places', {}).items():
+        if pl is not None:
+            for a in fd.read_op({'k': 'copy', 'pl': pl}):
                 if strip(a)[0] == 'p':
                     secrets.add(b.local_name(strip(a)[1]))
     for f, o in zip(agg['fields'], agg['ops']):
@@ -291,9 +344,9 @@ def rule_response_masks(ctx, cfg='prod-all', rule='RF-G4'):
     # parameters of proof_init that carry the random vector: the ones its role variables are read from
     ridx, rrng = _role_indexes(ctx, cfg, pi.path)
     rs_params = set()
-    for l, loc in enumerate(pi.locals):
-        if loc.get('name') in ridx or loc.get('name') in rrng:
-            for a in fdi.read_op({'k': 'copy', 'pl': {'l': l}}):
+    for lab, pl in getattr(_role_indexes, 'places', {}).items():
+        if pl is not None:
+            for a in fdi.read_op({'k': 'copy', 'pl': pl}):
                 if strip(a)[0] == 'p':
                     rs_params.add(strip(a)[1])
     for bi, s in pi.stmts():
@@ -395,10 +448,10 @@ def rule_cfg_twins(ctx, rule='RF-O'):
         prog, za = ctx.prog(cfg), ctx.zone(cfg)
         pi = 'bbsplus::proof::proof_init'
         # some function on the way from the draw to proof_init's roles succeeds only if len(vector) == 5 + (a count)
-        import vecpos
-        _, visited = vecpos.named_positions(ctx, cfg, pi, {'m_tilde', 'r1'}, RANDOM_VECTOR_ROOTS)
+        _role_indexes(ctx, cfg, pi)
+        visited = set(getattr(_role_indexes, 'visited', set())) | {pi}
         ok, seen = False, {}
-        for f in sorted(visited | {pi}):
+        for f in sorted(visited):
             post = set(za.summary(f)['post'])
             seen[f.split('::')[-1]] = [(tfmt(a), tfmt(b)) for a, b in post][:6]
             for a, b in post:
